@@ -46,7 +46,7 @@ NumE(e) == \/ IntLit(e)
 \* and only when no path inside the predicate replaces the builder's first input)
 PredF(p, first) ==
     /\ UsesPos(p) => (first /\ ~HasPath(p))
-    /\ CASE p.t = "num" -> IntLit(p)
+    /\ CASE p.t = "num" -> p.v.c = "fin"      \* also fractions: the model truncates like the engine
          [] p.t \in {"path", "filter", "union"} -> InF(p)
          [] p.t = "lit" -> TRUE
          [] p.t = "call" ->
